@@ -494,7 +494,7 @@ def verify_path(contract, cfg, c, prop="", replay_hook=None):
             finally:
                 c.in_spec -= 1
             for name, f in post.items():
-                S.prove("%s:post.%s" % (label, name), f, kind="post")
+                S.prove("%s:post.%s" % (label, name), f, kind="history" if name.startswith("history.") else "post")
             ew = contract.expect_warning(a)
             if ew is not None:
                 warned = {}
